@@ -6,18 +6,17 @@ set -uo pipefail
 . "$(dirname "$0")/lib.sh"
 prop="${1:?property id}"; mode="${2:-quick}"; shift; shift || true
 mkdir -p "$VERIF_DIR/out" "$VERIF_DIR/evidence"
+# private copy of the binary so that concurrent checks rebuilding do not disturb a running one
+bin="$VERIF_DIR/out/verifcheck.$prop.$$"
 (
   flock 9
-  build_harness
+  build_harness && cp "$VERIF_DIR/bin/verifcheck" "$bin"
 ) 9>"$VERIF_DIR/out/.build.lock" >"$VERIF_DIR/out/build-$prop.log" 2>&1
 if [ $? -ne 0 ]; then
   cat "$VERIF_DIR/out/build-$prop.log"
   echo "BUILD-FAILED property=$prop (harness does not compile against $REPO_DIR)"
   exit 2
 fi
-# private copy of the binary so that concurrent checks rebuilding do not disturb a running one
-bin="$VERIF_DIR/out/verifcheck.$prop.$$"
-cp "$VERIF_DIR/bin/verifcheck" "$bin"
 trap 'rm -f "$bin"' EXIT
 cd "$VERIF_DIR"
 case "$mode" in
